@@ -87,6 +87,17 @@ Theorem C01_named_predicates : forall r A B,
 Proof. exact oracle_named_predicates. Qed.
 Print Assumptions C01_named_predicates.
 
+(* one of the realizability facts proved outright: a geometry without non-empty polygons has no 2-dimensional interior,
+   so for two lines II <= 1 (the fact the crosses / overlaps short-cuts need) *)
+Theorem C01_realizable_lines_partial : forall r A B, dim_real A = 1 -> dim_real B = 1 -> mentry (relate_oracle r A B) 0 0 <= 1.
+Proof. exact oracle_realizable_LL. Qed.
+Print Assumptions C01_realizable_lines_partial.
+(* FULL statement (realizable_of_oracle), not proved:  forall r A B, in_scope A = true -> in_scope B = true ->
+     realizable (dim_real A) (dim_real B) (env_of A) (env_of B) (relate_oracle r A B).
+   Missing: the envelope facts (a point outside the envelope of a geometry is in its exterior: needs winding number 0
+   outside the bounding box) and the dimension fact (a set of higher dimension is not covered by one of lower dimension).
+   The decision procedure realizable_b is evaluated on every generated pair instead (props/C01.py). *)
+
 Theorem C01_realizable_reflect : forall dA dB eA eB m, realizable_b dA dB eA eB m = true -> realizable dA dB eA eB m.
 Proof. exact realizable_reflect. Qed.
 Print Assumptions C01_realizable_reflect.
